@@ -993,6 +993,12 @@ Definition prog_ok (x : option (list Qc)) (y : list Qc) (e : option exn) (steps 
                 continue
             vals = [v for s in st["state"] for v in s] + [v for s in st["before"] if s for v in s]
             tol = tol_for(vals, rel=2.0 ** -26)
+            if op["op"] == "integral_match" and op.get("alpha", 1.0) < 1 and "exc" not in st and st["before"][1] and len(st["before"][1]) == len(st["state"][1]):
+                # conditioning (DESIGN 3.6, 12.23): t^alpha with alpha < 1 is not Lipschitz at the centre of a window — a centre that is a
+                # sample in exact arithmetic and one ulp off in floats (or the other way round) moves the weight by (2^-50)^alpha,
+                # times the displacement applied
+                disp = max(abs(a_ - b_) for a_, b_ in zip(st["state"][1], st["before"][1]))
+                tol = "(%s + %s)" % (tol, q(Fraction(8 * disp * (2.0 ** -50) ** op["alpha"])))
             e = "(Some %s)" % st["exc"] if "exc" in st else "None"
             steps.append("SOp (%s) %s %s [%s]" % (self.coq_op(op, st), e, tol, "; ".join(qlist(s, qa) for s in st["state"])))
         return "prog_ok %s %s None [%s]" % (X, qlist(c["y"]), ";\n ".join(steps))
